@@ -1,38 +1,82 @@
 (* C18 - property theorems: sensor identity survives restarts and interrupted first starts.
-   [fixed = false] is server.WithToken as it is in /repo, [fixed = true] the repaired
-   function of fixes/C18-token-atomic-write.patch; the key-value part is the same in both. *)
+   The model is the code as it is in /repo (WithToken reads the file, adopts it only if it
+   holds a well-formed id, otherwise writes token.tmp and renames).
+   Remark: before /repo commit "fix: WithToken writes the token atomically and ignores an
+   empty or cut-short token file" the token was written in place and any existing file was
+   adopted, so a kill during the first write left an empty or cut-short token for ever;
+   such files are now initial states covered by C18_token_crash_safe /
+   C18_legacy_token_healed, and the harness replays every one of them. *)
 From HT Require Import Common.Bytes C18.Model C18.Check C18.Proofs.
 Open Scope nat_scope.
+
+(* ---- the token: kills at any point of any start ---- *)
+
+(* MAIN: whatever state the disk was in before a start (no token file, an established
+   token, a legacy empty / cut-short / otherwise malformed file), whatever services it
+   enabled and wherever it was killed (every on-disk state it passes through, the states
+   of the token.tmp write and of the key-value Sets included): the next completed start
+   uses a well-formed token, leaves exactly it in the token file, every later start of
+   every history keeps it, and a well-formed token established before is the one used *)
+Theorem C18_token_crash_safe :
+  forall f d cfg d' f' cfg' h,
+    token_wf (f_token f) = true -> token_wf (f_token f') = true ->
+    Forall (fun fc => token_wf (f_token (fst fc)) = true) h ->
+    In d' (crash_states f d cfg) ->
+    let tok := id_token (ident f' d' cfg') in
+    token_wf tok = true /\
+    d_token (after f' d' cfg') = Some tok /\
+    Forall (fun id => id_token id = tok) (runs (after f' d' cfg') h) /\
+    (forall t, d_token d = Some t -> token_wf t = true -> tok = t).
+Proof. exact token_crash_safe_proved. Qed.
+
+(* at every crash point the token file is what it was before the start, or the complete
+   fresh id (only when there was no well-formed token before) - never a part of it *)
+Theorem C18_token_file_never_partial : forall f d cfg d',
+  In d' (crash_states f d cfg) ->
+  d_token d' = d_token d \/
+  (d_token d' = Some (f_token f) /\ (forall b, d_token d = Some b -> token_wf b = false)).
+Proof. exact crash_state_token. Qed.
+
+(* a legacy token file that is not a well-formed id is replaced by the start's fresh id ... *)
+Theorem C18_legacy_token_healed : forall f d cfg,
+  (forall b, d_token d = Some b -> token_wf b = false) ->
+  id_token (ident f d cfg) = f_token f /\ d_token (after f d cfg) = Some (f_token f).
+Proof. exact legacy_token_healed. Qed.
+
+(* ... which covers the empty file and every proper prefix of an id *)
+Theorem C18_prefix_is_not_a_token : forall t k,
+  token_wf t = true -> k < 20 -> token_wf (firstn k t) = false.
+Proof. exact prefix_not_wf. Qed.
 
 (* ---- any number of restarts: the identity stays as first used ---- *)
 
 (* over every history of completed starts on one data directory, from ANY initial disk
    and with any sets of enabled services, every later start stamps the same token as the
-   first one (for the repaired code the generator's outputs must be well-formed ids) *)
-Theorem C18_token_stable : forall fixed d h id1 rest,
-  (fixed = true -> Forall (fun fc => token_wf (f_token (fst fc)) = true) h) ->
-  runs fixed d h = id1 :: rest -> Forall (fun id => id_token id = id_token id1) rest.
+   first one *)
+Theorem C18_token_stable : forall d h id1 rest,
+  Forall (fun fc => token_wf (f_token (fst fc)) = true) h ->
+  runs d h = id1 :: rest -> Forall (fun id => id_token id = id_token id1) rest.
 Proof. exact token_stable. Qed.
 
 (* ... and whenever two starts of the history both use an item (SSH host key, a TLS key or
    certificate of ftp/smtp/ldap, the agent key), it is the same value *)
-Theorem C18_items_stable : forall fixed h d i j idi idj it v w,
-  i <= j -> nth_error (runs fixed d h) i = Some idi -> nth_error (runs fixed d h) j = Some idj ->
+Theorem C18_items_stable : forall h d i j idi idj it v w,
+  i <= j -> nth_error (runs d h) i = Some idi -> nth_error (runs d h) j = Some idj ->
   In (it, v) (id_items idi) -> In (it, w) (id_items idj) -> v = w.
 Proof. exact items_stable. Qed.
 
 (* what a completed start uses is what it leaves on disk ... *)
-Theorem C18_token_persisted : forall fixed f d cfg,
-  d_token (after fixed f d cfg) = Some (id_token (ident fixed f d cfg)).
+Theorem C18_token_persisted : forall f d cfg,
+  d_token (after f d cfg) = Some (id_token (ident f d cfg)).
 Proof. exact start_token_persisted. Qed.
 
-Theorem C18_items_persisted : forall fixed f d cfg it v,
-  In (it, v) (id_items (ident fixed f d cfg)) -> kv_get (d_kv (after fixed f d cfg)) it = Some v.
+Theorem C18_items_persisted : forall f d cfg it v,
+  In (it, v) (id_items (ident f d cfg)) -> kv_get (d_kv (after f d cfg)) it = Some v.
 Proof. exact start_items_persisted. Qed.
 
 (* ... and nothing stored is ever overwritten or removed, at any crash point of any start *)
-Theorem C18_stored_items_kept : forall fixed f d cfg d' it w,
-  In d' (crash_states fixed f d cfg) -> kv_get (d_kv d) it = Some w -> kv_get (d_kv d') it = Some w.
+Theorem C18_stored_items_kept : forall f d cfg d' it w,
+  In d' (crash_states f d cfg) -> kv_get (d_kv d) it = Some w -> kv_get (d_kv d') it = Some w.
 Proof. exact stored_items_kept. Qed.
 
 (* ---- kills: key-value items ---- *)
@@ -40,8 +84,8 @@ Proof. exact stored_items_kept. Qed.
 (* every on-disk state a kill can leave keeps the store well-formed: each stored value is
    accepted by its library and each stored certificate has its key next to it and matches
    it ([wfk], [pairs]: any predicates the generators' outputs satisfy) *)
-Theorem C18_kv_items_crash_safe : forall wfk pairs fixed f d cfg d',
-  fresh_ok wfk pairs f -> kv_ok wfk pairs d -> In d' (crash_states fixed f d cfg) ->
+Theorem C18_kv_items_crash_safe : forall wfk pairs f d cfg d',
+  fresh_ok wfk pairs f -> kv_ok wfk pairs d -> In d' (crash_states f d cfg) ->
   kv_ok wfk pairs d' /\ kvext d d'.
 Proof. exact crash_states_ok. Qed.
 
@@ -49,78 +93,30 @@ Proof. exact crash_states_ok. Qed.
    certificate matching the key in use (a key left without certificate gets one made
    from that key), adopts everything the killed start had stored, and leaves a
    well-formed store - from where C18_items_stable keeps them *)
-Theorem C18_items_after_crash : forall wfk pairs fixed f d cfg d' f' cfg',
+Theorem C18_items_after_crash : forall wfk pairs f d cfg d' f' cfg',
   fresh_ok wfk pairs f -> fresh_ok wfk pairs f' -> kv_ok wfk pairs d ->
-  In d' (crash_states fixed f d cfg) ->
-  let id := ident fixed f' d' cfg' in
+  In d' (crash_states f d cfg) ->
+  let id := ident f' d' cfg' in
   (forall it v, In (it, v) (id_items id) -> wfk it v = true) /\
   (forall c kk v, key_of c = Some kk -> In (c, v) (id_items id) ->
-     exists kb, kv_get (d_kv (after fixed f' d' cfg')) kk = Some kb /\ pairs v kb = true) /\
+     exists kb, kv_get (d_kv (after f' d' cfg')) kk = Some kb /\ pairs v kb = true) /\
   (forall it v w, kv_get (d_kv d') it = Some w -> In (it, v) (id_items id) -> v = w) /\
-  kv_ok wfk pairs (after fixed f' d' cfg').
+  kv_ok wfk pairs (after f' d' cfg').
 Proof. exact items_crash_safe. Qed.
-
-(* ---- kills: the token ---- *)
-
-(* full statement [token_crash_safe]: after a kill at any point of a start (on a
-   directory without token or with an established one) the next completed start uses a
-   well-formed token, persists it, and an established token is the one used.
-   It holds of the repaired WithToken ... *)
-Theorem C18_token_crash_safe_repaired : token_crash_safe true.
-Proof. exact token_crash_safe_repaired. Qed.
-
-(* ... for which the first two parts hold on any disk state whatsoever *)
-Theorem C18_token_repaired_any_disk : forall d' f' cfg',
-  token_wf (f_token f') = true ->
-  token_wf (id_token (ident true f' d' cfg')) = true /\
-  d_token (after true f' d' cfg') = Some (id_token (ident true f' d' cfg')).
-Proof. exact token_crash_safe_fixed_any. Qed.
-
-(* FINDING: it does not hold of WithToken as it is in /repo *)
-Theorem C18_token_crash_safe_current_refuted : ~ token_crash_safe false.
-Proof. exact token_crash_safe_current_refuted. Qed.
-
-(* the defect class exactly: a kill during the first write leaves the token file empty or
-   holding a proper prefix (k = 0..19); EVERY such state is reachable, is adopted by the
-   next start as its token, and is not a well-formed id (and by C18_token_stable it is
-   then kept forever) *)
-Theorem C18_token_current_every_prefix_adopted : forall f cfg k f' cfg',
-  token_wf (f_token f) = true -> k < 20 ->
-  exists d', In d' (crash_states false f empty_disk cfg) /\
-             d_token d' = Some (firstn k (f_token f)) /\
-             id_token (ident false f' d' cfg') = firstn k (f_token f) /\
-             token_wf (firstn k (f_token f)) = false.
-Proof. exact token_current_every_prefix_adopted. Qed.
-
-(* the only token-file states the code as it is can pass through *)
-Theorem C18_token_current_crash_states : forall f d cfg d',
-  In d' (crash_states false f d cfg) ->
-  d_token d' = d_token d \/
-  (d_token d = None /\ exists k, k <= length (f_token f) /\ d_token d' = Some (firstn k (f_token f))).
-Proof. exact crash_state_token_cur. Qed.
-
-(* outside the defect class (the kill left no token file or a complete one) the code as
-   it is satisfies the full statement *)
-Theorem C18_token_crash_safe_current_outside : forall f d cfg d' f' cfg',
-  token_wf (f_token f') = true -> token_settled d -> In d' (crash_states false f d cfg) ->
-  token_settled d' ->
-  token_wf (id_token (ident false f' d' cfg')) = true /\
-  d_token (after false f' d' cfg') = Some (id_token (ident false f' d' cfg')) /\
-  (forall t, d_token d = Some t -> token_wf t = true -> id_token (ident false f' d' cfg') = t).
-Proof. exact token_crash_safe_current_outside. Qed.
 
 (* ---- the checker ---- *)
 
 (* observations that agree with the model (no mismatch) cannot trip the checks
    token-changed (value part), token-not-persisted and stored-item-changed (store part):
    those checks follow from the theorems above and are never stricter than the property *)
-Theorem C18_check_consistent : forall fixed c,
-  agrees fixed (c_disk0 c) (c_runs c) = true -> (fixed = true -> tokens_wf (c_runs c) = true) ->
+Theorem C18_check_consistent : forall c,
+  agrees (c_disk0 c) (c_runs c) = true -> tokens_wf (c_runs c) = true ->
   tokens_equal (c_runs c) = true /\ tokens_persisted (c_runs c) = true /\
   kv_monotone (d_kv (c_disk0 c)) (map (fun r => d_kv (r_disk r)) (c_runs c)) = true.
 Proof. exact check_consistent. Qed.
 
 (* ---- non-vacuity ---- *)
+Definition tok0 : bytes := [100;97;117;113;118;50;106;56;100;105;49;50;50;56;100;51;114;109;116;48]%N.
 Definition ex_fresh (n : N) : fresh :=
   mkFresh (firstn 19 tok0 ++ [48 + n]%N) (fun it => [item_code it; n]%N) (fun it kb => (item_code it :: n :: kb)%N).
 Definition ex_wfk (it : item) (v : bytes) : bool := match v with c :: _ => (c =? item_code it)%N | [] => false end.
@@ -135,29 +131,41 @@ Proof.
     unfold ex_pairs, ex_fresh, f_cert. apply eqb_bytes_true. reflexivity.
 Qed.
 
+Example C18_fresh_tokens_wf : forallb (fun n => token_wf (f_token (ex_fresh n))) [1; 2; 3; 4]%N = true.
+Proof. vm_compute. reflexivity. Qed.
+
 (* a first start killed between Set(pemkey) and Set(pemcert) of ftp and after the ssh key;
    three further starts with different service sets and different generator outputs:
    the crash state is a member of the model's crash states, the certificate is made from
    the surviving key, and every identity value is that of the first completed start *)
 Example C18_history_nonvacuous :
-  let d1 := nth 24 (crash_states true (ex_fresh 1) empty_disk [Ssh; Ftp; Ldap]) empty_disk in
+  let d1 := nth 24 (crash_states (ex_fresh 1) empty_disk [Ssh; Ftp; Ldap]) empty_disk in
   d_kv d1 = [(FtpKey, [2; 1]); (SshKey, [1; 1])]%N /\ d_token d1 = Some (f_token (ex_fresh 1)) /\
-  map id_items (runs true d1 [(ex_fresh 2, [Ftp]); (ex_fresh 3, [Ssh; Smtp]); (ex_fresh 4, [Ftp; Ssh; Agent])])
+  map id_items (runs d1 [(ex_fresh 2, [Ftp]); (ex_fresh 3, [Ssh; Smtp]); (ex_fresh 4, [Ftp; Ssh; Agent])])
   = [[(FtpKey, [2; 1]); (FtpCert, [3; 2; 2; 1])];
      [(SshKey, [1; 1]); (SmtpKey, [4; 3]); (SmtpCert, [5; 3; 4; 3])];
      [(FtpKey, [2; 1]); (FtpCert, [3; 2; 2; 1]); (SshKey, [1; 1]); (AgentKey, [8; 4])]]%N /\
-  map id_token (runs true d1 [(ex_fresh 2, [Ftp]); (ex_fresh 3, [Ssh; Smtp]); (ex_fresh 4, [Ftp; Ssh; Agent])])
+  map id_token (runs d1 [(ex_fresh 2, [Ftp]); (ex_fresh 3, [Ssh; Smtp]); (ex_fresh 4, [Ftp; Ssh; Agent])])
   = [f_token (ex_fresh 1); f_token (ex_fresh 1); f_token (ex_fresh 1)].
 Proof. vm_compute. repeat split; reflexivity. Qed.
 
-(* the finding, concretely: killed after the token file was created, before its bytes arrived *)
-Example C18_empty_token_adopted :
-  let d1 := nth 1 (crash_states false (ex_fresh 1) empty_disk []) empty_disk in
-  d_token d1 = Some [] /\
-  map id_token (runs false d1 [(ex_fresh 2, []); (ex_fresh 3, [Ssh])]) = [[]; []] /\
-  map id_token (runs true d1 [(ex_fresh 2, []); (ex_fresh 3, [Ssh])]) = [f_token (ex_fresh 2); f_token (ex_fresh 2)].
+(* a start killed while token.tmp holds 7 of the 20 bytes: no token file yet, the next
+   start writes its own id and keeps it; a legacy empty and a legacy 5-byte token file are
+   healed the same way *)
+Example C18_tmp_crash_and_legacy_nonvacuous :
+  let d1 := nth 8 (crash_states (ex_fresh 1) empty_disk [Ssh]) empty_disk in
+  d_token d1 = None /\ d_tmp d1 = Some (firstn 7 (f_token (ex_fresh 1))) /\
+  map id_token (runs d1 [(ex_fresh 2, []); (ex_fresh 3, [Ssh])]) = [f_token (ex_fresh 2); f_token (ex_fresh 2)] /\
+  map id_token (runs (mkDisk (Some []) None []) [(ex_fresh 2, []); (ex_fresh 3, [Ssh])])
+    = [f_token (ex_fresh 2); f_token (ex_fresh 2)] /\
+  map id_token (runs (mkDisk (Some (firstn 5 tok0)) None []) [(ex_fresh 3, []); (ex_fresh 4, [])])
+    = [f_token (ex_fresh 3); f_token (ex_fresh 3)].
 Proof. vm_compute. repeat split; reflexivity. Qed.
 
+Print Assumptions C18_token_crash_safe.
+Print Assumptions C18_token_file_never_partial.
+Print Assumptions C18_legacy_token_healed.
+Print Assumptions C18_prefix_is_not_a_token.
 Print Assumptions C18_token_stable.
 Print Assumptions C18_items_stable.
 Print Assumptions C18_token_persisted.
@@ -165,10 +173,4 @@ Print Assumptions C18_items_persisted.
 Print Assumptions C18_stored_items_kept.
 Print Assumptions C18_kv_items_crash_safe.
 Print Assumptions C18_items_after_crash.
-Print Assumptions C18_token_crash_safe_repaired.
-Print Assumptions C18_token_repaired_any_disk.
-Print Assumptions C18_token_crash_safe_current_refuted.
-Print Assumptions C18_token_current_every_prefix_adopted.
-Print Assumptions C18_token_current_crash_states.
-Print Assumptions C18_token_crash_safe_current_outside.
 Print Assumptions C18_check_consistent.
